@@ -1,0 +1,168 @@
+// Copyright 2017 Pilosa Corp.
+//
+// Licensed under the Apache License, Version 2.0 (the "License");
+// you may not use this file except in compliance with the License.
+// You may obtain a copy of the License at
+//
+//     http://www.apache.org/licenses/LICENSE-2.0
+//
+// Unless required by applicable law or agreed to in writing, software
+// distributed under the License is distributed on an "AS IS" BASIS,
+// WITHOUT WARRANTIES OR CONDITIONS OF ANY KIND, either express or implied.
+// See the License for the specific language governing permissions and
+// limitations under the License.
+
+//go:build verif
+// +build verif
+
+package pilosa
+
+import (
+	"context"
+)
+
+// Export shims for the verification harness (/verif, properties C07, C10, C13).
+// Add-only, tag-guarded: a fragment opened on a scratch file exactly as view.newFragment and
+// the package's internal tests (mustOpenFragment) do it, with its unexported write and read
+// paths made callable.
+
+// VerifC07Fragment wraps a real fragment.
+type VerifC07Fragment struct {
+	f *fragment
+}
+
+// VerifC07OpenFragment opens a fragment on path. kind is "set", "mutex" or "bool"
+// (mutexVector as in view.newFragment). maxOpN <= 0 keeps the default. queue=true attaches
+// a real background snapshot queue (one worker); queue=false makes enqueueSnapshot
+// snapshot synchronously (the "no holder" branch).
+func VerifC07OpenFragment(path string, shard uint64, cacheType string, kind string, maxOpN int, queue bool) (*VerifC07Fragment, error) {
+	f := newFragment(path, "i", "f", viewStandard, shard, 0)
+	if cacheType != "" {
+		f.CacheType = cacheType
+	}
+	if maxOpN > 0 {
+		f.MaxOpN = maxOpN
+	}
+	f.RowAttrStore = nopStore
+	switch kind {
+	case "mutex":
+		f.mutexVector = newRowsVector(f)
+	case "bool":
+		f.mutexVector = newBoolVector(f)
+	}
+	if queue {
+		f.snapshotQueue = newSnapshotQueue(1, 1, nil)
+	}
+	if err := f.Open(); err != nil {
+		return nil, err
+	}
+	return &VerifC07Fragment{f: f}, nil
+}
+
+// VerifC07FieldFragment returns the standard-view fragment of a field for a shard (nil if none).
+func VerifC07FieldFragment(fld *Field, shard uint64) *VerifC07Fragment {
+	v := fld.view(viewStandard)
+	if v == nil {
+		return nil
+	}
+	f := v.Fragment(shard)
+	if f == nil {
+		return nil
+	}
+	return &VerifC07Fragment{f: f}
+}
+
+func (v *VerifC07Fragment) Close() error { return v.f.Close() }
+
+// Reopen closes and opens the fragment again (as the internal tests' Reopen).
+func (v *VerifC07Fragment) Reopen() error {
+	if err := v.f.Close(); err != nil {
+		return err
+	}
+	return v.f.Open()
+}
+
+func (v *VerifC07Fragment) SetBit(row, col uint64) (bool, error)   { return v.f.setBit(row, col) }
+func (v *VerifC07Fragment) ClearBit(row, col uint64) (bool, error) { return v.f.clearBit(row, col) }
+func (v *VerifC07Fragment) SetRow(row uint64, cols []uint64) (bool, error) {
+	return v.f.setRow(NewRow(cols...), row)
+}
+func (v *VerifC07Fragment) ClearRow(row uint64) (bool, error) { return v.f.clearRow(row) }
+func (v *VerifC07Fragment) BulkImport(rows, cols []uint64, clear bool) error {
+	return v.f.bulkImport(rows, cols, &ImportOptions{Clear: clear})
+}
+func (v *VerifC07Fragment) ImportValue(cols []uint64, vals []int64, depth uint, clear bool) error {
+	return v.f.importValue(cols, vals, depth, clear)
+}
+func (v *VerifC07Fragment) ImportRoaring(data []byte, clear bool) error {
+	return v.f.importRoaring(context.Background(), data, clear)
+}
+func (v *VerifC07Fragment) SetValue(col uint64, depth uint, val int64) (bool, error) {
+	return v.f.setValue(col, depth, val)
+}
+func (v *VerifC07Fragment) ClearValue(col uint64, depth uint, val int64) (bool, error) {
+	return v.f.clearValue(col, depth, val)
+}
+func (v *VerifC07Fragment) Snapshot() error { return v.f.Snapshot() }
+
+// AwaitSnapshot waits until a queued background snapshot has run.
+func (v *VerifC07Fragment) AwaitSnapshot() { v.f.awaitSnapshot() }
+
+func (v *VerifC07Fragment) Row(row uint64) []uint64         { return v.f.row(row).Columns() }
+func (v *VerifC07Fragment) Bit(row, col uint64) (bool, error) { return v.f.bit(row, col) }
+func (v *VerifC07Fragment) Value(col uint64, depth uint) (int64, bool, error) {
+	return v.f.value(col, depth)
+}
+func (v *VerifC07Fragment) Rows(start uint64) []uint64 { return v.f.rows(start) }
+func (v *VerifC07Fragment) RowsForColumn(col uint64) []uint64 {
+	return v.f.rows(0, filterColumn(col))
+}
+func (v *VerifC07Fragment) ForEachBit(fn func(row, col uint64) error) error {
+	return v.f.forEachBit(fn)
+}
+
+// MutexGet is mutexVector.Get under the fragment lock; ok=false when the fragment has no vector.
+func (v *VerifC07Fragment) MutexGet(col uint64) (row uint64, found bool, err error, ok bool) {
+	v.f.mu.Lock()
+	defer v.f.mu.Unlock()
+	if v.f.mutexVector == nil {
+		return 0, false, nil, false
+	}
+	row, found, err = v.f.mutexVector.Get(col)
+	return row, found, err, true
+}
+
+func (v *VerifC07Fragment) Blocks() []FragmentBlock { return v.f.Blocks() }
+func (v *VerifC07Fragment) BlockData(id int) (rows, cols []uint64) {
+	return v.f.blockData(id)
+}
+func (v *VerifC07Fragment) InvalidateChecksums() { v.f.InvalidateChecksums() }
+
+// CachedChecksumBlocks lists the block ids that currently have a cached checksum.
+func (v *VerifC07Fragment) CachedChecksumBlocks() []int {
+	v.f.mu.Lock()
+	defer v.f.mu.Unlock()
+	var ids []int
+	for id := range v.f.checksums {
+		ids = append(ids, id)
+	}
+	return ids
+}
+
+// OpN returns (opN, snapshotsTaken).
+func (v *VerifC07Fragment) OpN() (int, int) {
+	v.f.mu.Lock()
+	defer v.f.mu.Unlock()
+	return v.f.opN, v.f.snapshotsTaken
+}
+
+// VerifC10HashPositions is the block hash Blocks() computes for a block holding exactly
+// these storage positions (ascending).
+func VerifC10HashPositions(positions []uint64) []byte {
+	h := newBlockHasher()
+	h.Reset()
+	for _, p := range positions {
+		h.WriteValue(p)
+	}
+	return h.Sum()
+}
